@@ -136,6 +136,22 @@ def oracleLine (ws : List String) : String :=
   | ["k16.apply", fnO, pos, kw] => K16.run fnO pos kw
   | "k6.run" :: n :: rest => zipRun n rest
   | "k6.step" :: n :: rem :: d :: idx :: rest => zipStep n rem d idx rest
+  | ["k1.should", ma, ex, sl, ms, base, att, e, truthy, inst] =>
+      let lst := fun (x : String) => ((x.splitOn ",").filter (fun y => y ≠ "" && y ≠ "-")).map nat!
+      let p : GPolicy := ⟨nat! ma, nat! ex, nat! sl, nat! ms, lst base⟩
+      let exc : GExcOpt := if e = "none" then none else some ⟨0, truthy = "1"⟩
+      let il := lst inst
+      toString (K1.shouldRetry p (nat! att) exc (fun c => il.contains c))
+  | ["k1.sleep", ma, ex, sl, ms, att] =>
+      let p : GPolicy := ⟨nat! ma, nat! ex, nat! sl, nat! ms, []⟩
+      toString (K1.sleepTime p (nat! att))
+  | "k2.next" :: now :: rest =>
+      let rec parse : List String → List GRJob
+        | i :: d :: st :: w :: more => ⟨nat! i, d = "1", st = "1", nat! w⟩ :: parse more
+        | _ => []
+      match K2.getNextJob (parse rest) (nat! now) with
+      | none => "none"
+      | some j => toString j.fut
   | "k4.admission" :: th :: running :: rest =>
       let r := K4.admission (rest.map nat!) (nat! running) (if th = "None" then none else some (nat! th))
       s!"[{String.intercalate " " (r.1.map toString)}] [{String.intercalate " " (r.2.1.map toString)}] {r.2.2.1} {r.2.2.2}"
